@@ -15,6 +15,7 @@ import (
 	"time"
 
 	"package-operator.run/internal/packages/verifsim/cs"
+	"package-operator.run/internal/packages/verifsim/e2"
 )
 
 // ---- environment ---------------------------------------------------------------
@@ -370,7 +371,7 @@ func writeReplay(prop string, v cs.Violation, res cs.RunResult, rep shrinkReport
 	spec.Sch, spec.Scn = res.Sch, res.Scn
 	// re-run with trace to produce the human-readable schedule
 	rf := replayFile{Property: prop, Rule: v.Rule, Sig: v.Sig, Msg: v.Msg, Engine: "E1 clustersim", Spec: spec, Hash: res.Hash, Desc: res.Desc, Trace: res.Trace, Shrink: rep}
-	dir := filepath.Join(verifDir(), "replays")
+	dir := env("VERIF_REPLAY_DIR", filepath.Join(verifDir(), "replays"))
 	_ = os.MkdirAll(dir, 0o755)
 	name := fmt.Sprintf("%s-%s-%s-seed%d-run%d.json", prop, v.Rule, sanitize(v.Sig), spec.Seed, spec.Index)
 	path := filepath.Join(dir, name)
@@ -440,17 +441,17 @@ func TestReplay(t *testing.T) {
 
 type agg struct {
 	runs, faultFree, faulted, exercised, inconclusive, capped int
-	steps, requests, passes                                  int
-	simSeconds                                               float64
-	faults, probes                                           map[string]int
-	ilsigs                                                   map[uint64]struct{}
-	states                                                   map[uint64]struct{}
-	viol                                                     map[string][]cs.RunResult // by rule/sig
-	violV                                                    map[string]cs.Violation
-	incidental                                               map[string]int
-	machinery                                                []string
-	samples                                                  []any
-	extraSum                                                 map[string]float64
+	steps, requests, passes                                   int
+	simSeconds                                                float64
+	faults, probes                                            map[string]int
+	ilsigs                                                    map[uint64]struct{}
+	states                                                    map[uint64]struct{}
+	viol                                                      map[string][]cs.RunResult // by rule/sig
+	violV                                                     map[string]cs.Violation
+	incidental                                                map[string]int
+	machinery                                                 []string
+	samples                                                   []any
+	extraSum                                                  map[string]float64
 }
 
 func newAgg() *agg {
@@ -557,6 +558,7 @@ type propMeta struct {
 	Rule        string
 	Assumptions []string
 	Engine      string
+	NoCommon    bool
 }
 
 var commonAssumptions = []string{
@@ -566,7 +568,16 @@ var commonAssumptions = []string{
 	"simulated with go1.26.8 + testing/synctest (fake clock); the project pins go1.23.8",
 }
 
+var e2Assumptions = []string{
+	"E2: the lock-using files of the current tree are rewritten at build time (sync.Mutex/RWMutex -> simsync, go statements -> controlled tasks, lockset probes, map ranges -> seeded order); rewriter and simsync are trusted",
+	"E2: scheduling points are lock operations, goroutine starts and scripted environment calls; complete for interleavings only while every access to the guarded fields is lock-protected, which the lockset probes check in every run",
+	"E2: InformerMap, informers, readers, work queues and the registry pull function are scripted stubs; Cache, cacheSource, EnqueueWatchingObjects, source.Informer and RequestManager are real code",
+	"E2: the Go race detector is not used (a serialised schedule orders every access); the lockset rule stands in for it",
+}
+
 var metas = map[string]propMeta{
+	"C12": {Engine: "E2 concsim", NoCommon: true, Assumptions: e2Assumptions, Rule: "seeded schedules and informer-start faults over generated Watch/Free/Get/List/OwnersForGKV/event programs on the real Cache; each run is decided by direct rules and by a porcupine linearizability check of the recorded history against the sequential reference model. Non-trivial = at least one cache call returned; distinct = distinct sequences of (task, scheduling point) picks"},
+	"C20": {Engine: "E2 concsim", NoCommon: true, Assumptions: e2Assumptions, Rule: "seeded schedules and pull errors over generated concurrent Pull programs on the real RequestManager with a scripted registry; each run is decided by history rules (two-in-flight, stuck-caller, entry-leaked, response-shape, wrong-image, stale-response, aliasing, unguarded-access). Non-trivial = at least one registry pull started; distinct = distinct sequences of (task, scheduling point) picks"},
 	"C10": {Level: "fault_enumeration", Rule: "two parts: (a) a complete single-fault sweep: for seeded fault-free base runs, one run per (API request of the base run x {error before effect, effect with lost response, crash before the request, crash after the request}) - coverage key sum_sweep_runs counts them, sum_sweep_bases_completed the bases swept completely; (b) seeded random fault sequences, drift and schedules. Every run is compared epoch by epoch with the undisturbed reference run of the same scenario (end-state projection), must reach quiescence within the calm-step budget, and must be idle under an extra pass of every controller. Non-trivial = the comparison was reached; distinct = distinct interleaving signatures"},
 }
 
@@ -581,7 +592,11 @@ func metaOf(prop string) propMeta {
 	if m.Engine == "" {
 		m.Engine = "E1 clustersim"
 	}
-	m.Assumptions = append(append([]string{}, commonAssumptions...), m.Assumptions...)
+	if m.NoCommon {
+		m.Assumptions = append(append([]string{}, m.Assumptions...), commonAssumptions[2:]...)
+	} else {
+		m.Assumptions = append(append([]string{}, commonAssumptions...), m.Assumptions...)
+	}
 	return m
 }
 
@@ -595,7 +610,7 @@ func dispatchRun(t *testing.T, spec cs.RunSpec) cs.RunResult {
 	return cs.RunOne(t, spec)
 }
 
-var otherEngines = map[string]func(t *testing.T, spec cs.RunSpec) cs.RunResult{}
+var otherEngines = map[string]func(t *testing.T, spec cs.RunSpec) cs.RunResult{"C12": e2.RunOne, "C20": e2.RunOne}
 
 func TestDriver(t *testing.T) {
 	prop := os.Getenv("VERIF_PROP")
@@ -736,28 +751,36 @@ func TestDriver(t *testing.T) {
 	wall := time.Since(start).Seconds()
 	hours := wall / 3600
 	cov := map[string]any{
-		"evaluations":         a.runs,
-		"distinct_nontrivial": len(a.ilsigs),
-		"rule":                meta.Rule,
-		"samples":             a.samples,
-		"exercised_runs":      a.exercised,
-		"fault_free_runs":     a.faultFree,
-		"faulted_runs":        a.faulted,
-		"inconclusive_runs":   a.inconclusive,
-		"capped_runs":         a.capped,
-		"scheduler_steps":     a.steps,
-		"api_requests":        a.requests,
-		"reconcile_passes":    a.passes,
-		"simulated_seconds":   a.simSeconds,
-		"runs_per_hour":       float64(a.runs) / hours,
-		"faults_fired":        a.faults,
-		"rare_branch_probes":  a.probes,
-		"distinct_abstract_states": len(a.states),
+		"evaluations":                 a.runs,
+		"distinct_nontrivial":         len(a.ilsigs),
+		"rule":                        meta.Rule,
+		"samples":                     a.samples,
+		"exercised_runs":              a.exercised,
+		"fault_free_runs":             a.faultFree,
+		"faulted_runs":                a.faulted,
+		"inconclusive_runs":           a.inconclusive,
+		"capped_runs":                 a.capped,
+		"scheduler_steps":             a.steps,
+		"api_requests":                a.requests,
+		"reconcile_passes":            a.passes,
+		"simulated_seconds":           a.simSeconds,
+		"runs_per_hour":               float64(a.runs) / hours,
+		"faults_fired":                a.faults,
+		"rare_branch_probes":          a.probes,
+		"distinct_abstract_states":    len(a.states),
 		"incidental_other_properties": a.incidental,
-		"known_findings_matched":     knownLines,
-		"workers":                    tc.Workers,
-		"engine":                     meta.Engine,
-		"real_vs_stub":               "real: all PKO controllers/reconcilers/adoption/patcher/preflight/probing/dynamiccache.Cache/ownerhandling; stub: API server, client, informers, manager wiring, queues, registry, third parties",
+		"known_findings_matched":      knownLines,
+		"workers":                     tc.Workers,
+		"engine":                      meta.Engine,
+		"real_vs_stub":                "real: all PKO controllers/reconcilers/adoption/patcher/preflight/probing/dynamiccache.Cache/ownerhandling; stub: API server, client, informers, manager wiring, queues, registry, third parties",
+	}
+	if strings.HasPrefix(meta.Engine, "E2") {
+		delete(cov, "api_requests")
+		delete(cov, "reconcile_passes")
+		cov["operation_stamps"] = a.requests
+		cov["goroutines_scheduled"] = a.passes
+		cov["simulated_seconds"] = "not applicable: the components under E2 have no timers; time is the scheduler step count"
+		cov["real_vs_stub"] = "real: dynamiccache.Cache, cacheSource, EnqueueWatchingObjects, controller-runtime source.Informer, packageimport.RequestManager, RawPackage.DeepCopy (source of the current tree, locks/go statements/map ranges machine-rewritten to simulator primitives); stub: InformerMap, informers, cache readers, work queues, registry pull function"
 	}
 	for k, v := range a.extraSum {
 		cov["sum_"+k] = v
@@ -769,9 +792,10 @@ func TestDriver(t *testing.T) {
 		"property_id": prop, "tier": tier, "seed": seed, "level": meta.Level,
 		"coverage": cov, "assumptions": meta.Assumptions, "wall_s": wall, "violations": newViol,
 	}
-	_ = os.MkdirAll(filepath.Join(verifDir(), "evidence"), 0o755)
+	evDir := env("VERIF_EVIDENCE_DIR", filepath.Join(verifDir(), "evidence"))
+	_ = os.MkdirAll(evDir, 0o755)
 	b, _ := json.MarshalIndent(ev, "", " ")
-	if err := os.WriteFile(filepath.Join(verifDir(), "evidence", prop+".json"), b, 0o644); err != nil {
+	if err := os.WriteFile(filepath.Join(evDir, prop+".json"), b, 0o644); err != nil {
 		a.machinery = append(a.machinery, "cannot write evidence: "+err.Error())
 	}
 
